@@ -156,6 +156,11 @@ breaking('GR6-recurrence-same-m', {'C14': 'GR6'}, edit=[(M + 'group/_symmetric.p
 breaking('G6-diag-scale', {'C16': 'G6'}, edit=[(M + 'gellmann.py', "data = np.sqrt(2/(i*(i+1)))*np.array([1]*i + [-i])", "data = np.sqrt(2/(i*(i-1)))*np.array([1]*i + [-i])")])
 breaking('G6-diag-not-traceless', {'C16': 'G6'}, edit=[(M + 'gellmann.py', "data = np.sqrt(2/(i*(i+1)))*np.array([1]*i + [-i])", "data = np.sqrt(2/(i*(i+1)))*np.array([1]*i + [i])")])
 breaking('G6-identity-norm', {'C16': 'G6'}, edit=[(M + 'gellmann.py', "data = np.ones(d)*(np.sqrt(2/d))", "data = np.ones(d)*(np.sqrt(1/d))")])
+breaking('refix-concurrence-pure', {'C13': 'F2', 'C05': 'F2'}, patch_reverse='fix_8943922.diff')
+breaking('F5-clamp-after-sqrt', {'C13': 'F5', 'C05': 'F5'}, edit=[(M + 'entangle/eof.py', "EVL = np.sqrt(np.maximum(0, np.linalg.eigvalsh(sqrt_rho @ z0 @ sqrt_rho)))", "EVL = np.maximum(0, np.sqrt(np.linalg.eigvalsh(sqrt_rho @ z0 @ sqrt_rho)))")])
+breaking('AR2-swapped-reshape', {'C05': 'AR2'}, edit=[(M + 'entangle/_misc.py', "tmp0 = rho.reshape(dimA, dimB, dimA, dimB).transpose(0,3,2,1).reshape(dimA*dimB,dimA*dimB)", "tmp0 = rho.reshape(dimB, dimA, dimB, dimA).transpose(0,3,2,1).reshape(dimA*dimB,dimA*dimB)")])
+breaking('W7-theta-overlap', {'C02': 'W7'}, edit=[(M + 'manifold/_stiefel.py', "        theta = theta[:,:(-rank)].reshape(batch, -1, 2)", "        theta = theta[:,rank:].reshape(batch, -1, 2)")])
+breaking('G2-swapped-pads', {'C02': 'G2'}, edit=[(M + 'manifold/_internal.py', "            mat = numqi.gellmann.gellmann_basis_to_matrix(torch.concat([tmp0, theta, tmp1], axis=1)).imag\n        else:\n            tmp0 = torch.zeros(N1, 1, dtype=theta.dtype, device=device)\n            mat = 1j*numqi.gellmann.gellmann_basis_to_matrix(torch.concat([theta, tmp0], axis=1))\n        tmp0 = torch.eye(dim, dtype=theta.dtype, device=device)\n        tmp1 = torch.linalg.inv(", "            mat = numqi.gellmann.gellmann_basis_to_matrix(torch.concat([tmp1, theta, tmp0], axis=1)).imag\n        else:\n            tmp0 = torch.zeros(N1, 1, dtype=theta.dtype, device=device)\n            mat = 1j*numqi.gellmann.gellmann_basis_to_matrix(torch.concat([theta, tmp0], axis=1))\n        tmp0 = torch.eye(dim, dtype=theta.dtype, device=device)\n        tmp1 = torch.linalg.inv(")])
 breaking('refix-get_gme_2qubit', {'C13': 'F2', 'C05': 'F2'}, patch_reverse='fix_78cd862.diff')
 
 # ---- textual breaking edits, one per rule family
